@@ -5,10 +5,15 @@ package actor
 import (
 	"context"
 	"errors"
+	"net"
+	"strconv"
 	"sync"
+	"time"
 
 	"golang.org/x/sync/errgroup"
 
+	"github.com/tochemey/goakt/v4/discovery"
+	"github.com/tochemey/goakt/v4/internal/address"
 	"github.com/tochemey/goakt/v4/internal/chunk"
 	"github.com/tochemey/goakt/v4/internal/cluster"
 	"github.com/tochemey/goakt/v4/internal/internalpb"
@@ -139,4 +144,105 @@ func VerifRecreateGate(props *internalpb.Actor, departed string) string {
 	default:
 		return "err"
 	}
+}
+
+// ---- snapshot builders (the upstream end of the relocatable/system filter) --------------------------
+
+type verifScanCluster struct {
+	cluster.Cluster
+	actors []*internalpb.Actor
+	grains []*internalpb.Grain
+}
+
+func (c *verifScanCluster) ActorsByHost(context.Context, string, int, time.Duration) ([]*internalpb.Actor, error) {
+	return c.actors, nil
+}
+func (c *verifScanCluster) GrainsByHost(context.Context, string, int, time.Duration) ([]*internalpb.Grain, error) {
+	return c.grains, nil
+}
+
+// VerifDeriveRelocationSet runs the real deriveRelocationSetFromRegistry (crash recovery) over the
+// given registry records of the departed node and returns the derived snapshot.
+func VerifDeriveRelocationSet(host string, peersPort, remotingPort int, actors []*internalpb.Actor, grains []*internalpb.Grain) (*internalpb.PeerState, bool) {
+	sys, err := NewActorSystem("verifderive", WithLogger(log.DiscardLogger))
+	if err != nil {
+		return nil, false
+	}
+	x := sys.(*actorSystem)
+	x.cluster = &verifScanCluster{actors: actors, grains: grains}
+	addr := net.JoinHostPort(host, strconv.Itoa(peersPort))
+	x.peerRemotingPorts.Set(addr, remotingPort)
+	return x.deriveRelocationSetFromRegistry(context.Background(), addr)
+}
+
+// VerifLiveActorSpec describes an actor to spawn on the node that will build its shutdown snapshot.
+type VerifLiveActorSpec struct {
+	Name        string
+	Role        string
+	Relocatable bool
+	System      bool // spawned as a system actor under a reserved name
+}
+
+type verifPlainActor struct{}
+
+func (verifPlainActor) PreStart(*Context) error { return nil }
+func (verifPlainActor) Receive(*ReceiveContext) {}
+func (verifPlainActor) PostStop(*Context) error { return nil }
+
+// VerifPreShutdownSnapshot starts a real actor system, spawns the given actors, and runs the real
+// preShutdown (the graceful-shutdown snapshot builder). It returns the actor names found in the
+// snapshot with their wire records.
+func VerifPreShutdownSnapshot(specs []VerifLiveActorSpec) (map[string]*internalpb.Actor, error) {
+	ctx := context.Background()
+	system, err := NewActorSystem("verifsnap", WithLogger(log.DiscardLogger))
+	if err != nil {
+		return nil, err
+	}
+	if err := system.Start(ctx); err != nil {
+		return nil, err
+	}
+	x := system.(*actorSystem)
+	defer func() {
+		x.relocationEnabled.Store(false)
+		x.clusterEnabled.Store(false)
+		x.locker.Lock()
+		x.cluster = nil
+		x.locker.Unlock()
+		_ = system.Stop(ctx)
+	}()
+	for _, sp := range specs {
+		var opts []SpawnOption
+		if !sp.Relocatable {
+			opts = append(opts, WithRelocationDisabled())
+		}
+		if sp.Role != "" {
+			opts = append(opts, WithRole(sp.Role))
+		}
+		if sp.System {
+			opts = append(opts, asSystem())
+		}
+		if _, err := system.Spawn(ctx, sp.Name, new(verifPlainActor), opts...); err != nil {
+			return nil, err
+		}
+	}
+	x.locker.Lock()
+	x.cluster = &verifScanCluster{}
+	x.clusterNode = &discovery.Node{Host: "127.0.0.1", PeersPort: 9500}
+	x.locker.Unlock()
+	x.clusterEnabled.Store(true)
+	x.relocationEnabled.Store(true)
+	st, err := x.preShutdown()
+	if err != nil {
+		return nil, err
+	}
+	out := map[string]*internalpb.Actor{}
+	for _, a := range st.GetActors() {
+		addr, perr := address.Parse(a.GetAddress())
+		if perr != nil {
+			out["unparsable:"+a.GetAddress()] = a
+			continue
+		}
+		out[addr.Name()] = a
+	}
+	return out, nil
 }
